@@ -258,10 +258,11 @@ def early_outs(prog):
             def about_clauses(c):
                 s_ = show(c)
                 return (mir.is_call(c, "is_empty") and "clauses" in s_) or \
-                    (c[0] == "bin" and c[1] == "Eq" and "len(" in s_ and "clauses" in s_) or \
+                    (c[0] == "bin" and c[1] in ("Eq", "Lt", "Le", "Ge", "Gt", "Ne") and "len(" in s_ and "clauses" in s_) or \
                     ("compile_cnf_helper" in s_ or "collapse_clauses" in s_)
             if cs.callee.name == "true_ptr":
-                just = [c for c, val in facts if about_clauses(c) and (val != "0" or "helper" in show(c) or "collapse" in show(c))]
+                just = [c for c, val in facts if about_clauses(c) and (val != "0" or "helper" in show(c) or "collapse" in show(c)
+                                                                       or (c[0] == "bin" and c[1] in ("Ge", "Gt", "Ne")))]
                 if not just:
                     bad.append("the compiler answers ⊤ under %s, not under `clauses().is_empty()`: a formula that still has "
                                "(empty) clauses is declared valid" % ([show(c)[:40] + ("" if v != "0" else " = false") for c, v in facts] or ["no condition"]))
